@@ -15,8 +15,15 @@ Monitors (all on executions of the real Membrane / InnateImmunity):
   * audit trail: get_audit_log() grows by exactly one entry per filter() and that entry is the returned result;
   * metamorphic relations on real calls: blocked(x) => blocked(case_perturb(x)) and blocked(pre+sep+x+sep+post);
   * totality: every call under `except BaseException`, hostile inputs swept over eight gate configurations;
-  * rate limiter under rv.sched (3 threads x <= 4 filter() calls, _rate_lock wrapped): admissions <= rate_limit,
-    no deadlock, one audit entry per call, for every explored schedule.
+  * rate limiter under rv.sched (3 threads x <= 4 filter() calls; every lock-like attribute of the gate and of the helper objects
+    it holds is wrapped generically, whatever it is called): admissions <= rate_limit, no deadlock, one audit entry per call,
+    for every explored schedule.
+
+Nothing here reads or writes a private attribute / method of the gates: rules go in through the constructors, add_signature /
+learn_threat / forget_threat / import_antibodies / set_threshold / add_pattern and the public `signatures` / `patterns` lists,
+verdicts come out through the returned results and get_audit_log(); time is the module-level `time` name (rv.vclock); locks and
+helper objects are found structurally. Required minimums are keyed to calls made and results judged only (lock acquisitions and
+the number of instrumented code objects are informational: they depend on how the gate is built inside).
 """
 import contextlib
 import io
@@ -85,7 +92,7 @@ def plan(tier):
                         "membrane_rule_change:overwrite-matcher": 50, "membrane_rule_change:replace-signature": 150,
                         "membrane_rule_change:remove-add-signature": 80, "innate_rule_change:replace-pattern": 60,
                         "innate_rule_change:remove-add-pattern": 50,
-                        "thread_schedules": 1000, "thread_schedules_with_switch_inside": 300, "thread_rate_lock_acquisitions": 3000, "thread_schedules_limit_reached": 500,
+                        "thread_schedules": 1000, "thread_schedules_with_switch_inside": 300, "thread_filter_results_judged": 3000, "thread_schedules_limit_reached": 500,
                         "cases_that_printed": 20}}
 
 
@@ -916,9 +923,54 @@ def case_sweep(ctx, gate, kind):
 
 
 # ------------------------------------------------------------------ rate limiter under the controlled scheduler
-def _instrument():
-    from operon_ai.organelles.membrane import Membrane
-    return sched.instrument(Membrane)
+def _library_object(v):
+    """an instance of a class the library defines that can carry state of its own (no enum member, no class, no function)"""
+    import enum
+    t = type(v)
+    return ((getattr(t, "__module__", "") or "").startswith("operon_ai") and not isinstance(v, (type, enum.Enum))
+            and hasattr(v, "__dict__"))
+
+
+def _parts(obj, depth=2):
+    """`obj` plus the library-defined helper objects it holds directly in instance attributes (whatever they are called):
+    state that a gate keeps in a helper of its own (a window / registry object) is reached like state kept in the gate itself"""
+    out, seen, todo = [], set(), [(obj, 0)]
+    while todo:
+        o, d = todo.pop(0)
+        if id(o) in seen:
+            continue
+        seen.add(id(o))
+        out.append(o)
+        if d < depth:
+            todo.extend((v, d + 1) for v in vars(o).values() if _library_object(v))
+    return out
+
+
+def _instrument(probe):
+    """LINE events on every function of the gate's classes (the whole MRO as far as the library defines it), of the classes of
+    helper objects the instance holds, and on the module-level functions next to them - found by structure, not by name"""
+    import types
+    owners, mods = [], set()
+    for o in _parts(probe):
+        for k in type(o).__mro__:
+            if (getattr(k, "__module__", "") or "").startswith("operon_ai") and k not in owners:
+                owners.append(k)
+                mods.add(k.__module__)
+    for name in sorted(mods):
+        mod = sys.modules.get(name)
+        for v in list(vars(mod).values()) if mod is not None else []:
+            if isinstance(v, types.FunctionType) and v.__module__ == name:
+                owners.append(v)
+    return sched.instrument(*owners)
+
+
+def _wrap_locks(obj):
+    """every lock-like attribute of the gate and of its helper objects becomes a scheduler-aware lock, whatever it is called"""
+    from rv.locks import wrap_all_locks
+    out = []
+    for o in _parts(obj):
+        out.extend(wrap_all_locks(o, sched.SchedLock))
+    return out
 
 
 def _uninstrument():
@@ -940,12 +992,13 @@ def case_threads(ctx, n, rng):
     contents = [["message %d-%d %s" % (t, i, "jailbreak" if rng.random() < 0.15 else "ok") for i in range(ncalls[t])] for t in range(nthreads)]
     desc = {"kind": "threads", "rate_limit": limit, "calls": contents}
     clock = VClock(1_700_000_000.0)
-    ninstr = _instrument()
+    ninstr = _instrument(cls(rate_limit=limit, threshold=ThreatLevel.DANGEROUS, silent=True))
     ctx.maxc("instrumented_code_objects", ninstr)
 
     def run(policy, label):
         m = cls(rate_limit=limit, threshold=ThreatLevel.DANGEROUS, silent=True)
-        m._rate_lock = sched.SchedLock(m._rate_lock, "_rate_lock")
+        wrapped = _wrap_locks(m)
+        ctx.maxc("thread_locks_wrapped_per_gate", len(wrapped))
 
         def mk(t):
             def body():
@@ -956,7 +1009,7 @@ def case_threads(ctx, n, rng):
         sc.run([mk(t) for t in range(nthreads)])
         ctx.count("thread_schedules")
         ctx.count("thread_yield_points", sc.step)
-        ctx.count("thread_rate_lock_acquisitions", m._rate_lock.acquisitions)
+        ctx.count("thread_lock_acquisitions", sum(w.acquisitions for w in wrapped))
         if sc.switch_while_other_inside:
             ctx.count("thread_schedules_with_switch_inside")
             ctx.nontrivial(("threads", sc.trace_hash()))
@@ -972,6 +1025,7 @@ def case_threads(ctx, n, rng):
             ctx.violation("filter-raises-under-threads:%s" % type(errs[0]).__name__, "filter() raised %r in a thread" % (errs[0],), wit)
             return sc
         results = [r for rs in sc.results for r in rs]
+        ctx.count("thread_filter_results_judged", len(results))
         admitted = sum(1 for r in results if r.allowed)
         passed = sum(1 for r in results if r.allowed or r.matched_signatures)
         wit.update(admitted=admitted, passed_gate=passed)
